@@ -241,6 +241,18 @@ def gen_local(seed, tier):
     w["shots"].append({"weapon": len(w["weapons"]) - 1, "ammo": 0, "atmo": 0, "winds": None, "look": [0.0, "Degree"],
                        "relative": [0.0, "Degree"], "cant": [0.0, "Degree"]})
     offzero_shot = len(w["shots"]) - 1
+    # "through the air": a slow, draggy projectile in ONE strong constant wind (head, tail or cross); the step is
+    # measured relative to the moving air mass
+    w["dms"].append({"table": 0, "bc": gen.pick(rng, [0.012, 0.03, 0.08])})
+    w["ammos"].append({"dm": len(w["dms"]) - 1, "mv": [gen.pick(rng, [300.0, 400.0, 700.0]), "FPS"]})
+    wind_fps, wind_dir = gen.pick(rng, [60.0, 100.0, 110.0]), gen.pick(rng, [180.0, 180.0, 0.0, 90.0, 200.0])
+    w["winds"].append({"velocity": [wind_fps, "FPS"], "direction": [wind_dir, "Degree"]})
+    w["windlists"].append([len(w["winds"]) - 1])
+    w["shots"].append({"weapon": 1, "ammo": len(w["ammos"]) - 1, "atmo": 0, "winds": len(w["windlists"]) - 1,
+                       "look": gen.gen_angle_deg(rng, gen.pick(rng, [0.0, 10.0, 45.0])), "relative": [0.0, "Degree"],
+                       "cant": [0.0, "Degree"]})
+    windy_shot = len(w["shots"]) - 1
+    windy = [wind_fps * math.cos(math.radians(wind_dir)), wind_fps * math.sin(math.radians(wind_dir))]
     prog = []
     live = []
 
@@ -288,12 +300,15 @@ def gen_local(seed, tier):
                 prog.append({"op": "zero", "calc": cid, "shot": offzero_shot, "dist": [100.0, "Yard"], "cap0": True})
         else:
             c = gen.pick(rng, live)
-            k = gen.pick(rng, ["fire", "fire", "zero", "trace", "gravity"])
+            k = gen.pick(rng, ["fire", "fire", "zero", "trace", "gravity", "windy"])
             if k == "fire":
                 prog.append({"op": "fire", "calc": c, "shot": gen.pick(rng, shots), "range": simgen.gen_range(rng, 50, 300),
                              "step": [50.0, "Yard"]})
             elif k == "zero":
                 prog.append({"op": "zero", "calc": c, "shot": gen.pick(rng, shots), "dist": simgen.gen_range(rng, 50, 200)})
+            elif k == "windy":
+                prog.append({"op": "fire", "calc": c, "shot": windy_shot, "range": [gen.pick(rng, [20.0, 40.0]), "Yard"],
+                             "step": [1000.0, "Yard"], "extra": True, "time_step": 1e-9, "trace": True, "wind": windy})
             elif k == "gravity":
                 prog.append({"op": "fire", "calc": c, "shot": vacuum_shot, "range": [gen.pick(rng, [30.0, 60.0]), "Yard"],
                              "step": [1000.0, "Yard"], "extra": True, "time_step": 1e-9, "gravity_trace": True})
@@ -367,10 +382,12 @@ def check_local(spec, hist):
             if rows and op["calc"] in calc_step:
                 mx = calc_step[op["calc"]]
                 worst = 0.0
+                wx, wz = op.get("wind") or (0.0, 0.0)
                 for a, b in zip(rows[1:-2], rows[2:-1]):
-                    dx = (float.fromhex(b[1]) - float.fromhex(a[1])) / 12.0
+                    dt = float.fromhex(b[0]) - float.fromhex(a[0])
+                    dx = (float.fromhex(b[1]) - float.fromhex(a[1])) / 12.0 - wx * dt      # relative to the air mass
                     dy = (float.fromhex(b[4]) - float.fromhex(a[4])) / 12.0
-                    dz = (float.fromhex(b[7]) - float.fromhex(a[7])) / 12.0
+                    dz = (float.fromhex(b[7]) - float.fromhex(a[7])) / 12.0 - wz * dt
                     worst = max(worst, math.sqrt(dx * dx + dy * dy + dz * dz))
                 if worst > mx * (1 + 1e-9):
                     bad("step.exceeds_configured_maximum", i, f"an integration step advanced the projectile {worst!r} ft, "
